@@ -669,7 +669,7 @@ def verify_case(T, case, timeout_ms=None, want=None, exclude=None):
             ob.short = short
             steps = assumptions if goal is None else [(assumptions, goal)]
             for (asm, gl) in steps:
-                v, s_ = solve.prove([alg.lift(a) for a in asm], gl, timeout_ms)
+                v, s_ = solve.prove([alg.lift(a) for a in asm], gl, timeout_ms, cvc5_first=getattr(case, "cvc5_first", False))
                 _merge(ob, v)
                 if not ob.size:
                     ob.size = len(alg.lift(gl).sexpr())
